@@ -209,7 +209,8 @@ struct FnEmit {
           const Loop *bl = LI.getLoopFor(b); const Loop *child = bl; while(child && child->getParentLoop()!=L) child = child->getParentLoop();
           if(bl!=L && child){ emitLoop(child); continue; }
           done.insert(b); out.push_back(b); } };
-      emitLoop(nullptr);
+      if(getenv("IR2C_ORDER") && std::string(getenv("IR2C_ORDER"))=="llvm"){ for(auto &B: F) out.push_back(&B); }   // LLVM's own block order (harnesses without heap code were validated with it and solve faster)
+      else emitLoop(nullptr);
       for(auto*b: out){ bs<<inner.BB(b)<<": ;\n"; for(auto &I: *b) inner.inst(I); } }
     bs.flush();
     os<<"static "<<fproto(F.getFunctionType(), fname(&F))<<" {\n";
